@@ -46,7 +46,7 @@ class Cfg:
         self.thorough = thorough
         self.methods = (list(METHODS) if thorough else ["name", "cpu_times", "ppid", "uids", "gids", "memory_info",
                                                          "memory_full_info", "memory_maps", "num_ctx_switches"]) + ["cmdline"]
-        self.asdict = list(ASDICT) if thorough else ["nu", "nc", "mm", "all", "str", "bad", "empty"]
+        self.asdict = list(ASDICT) if thorough else ["nu", "nc", "mm", "all", "str", "bad", "empty", "tup", "gen"]
         self.max_nest = 2
 
 
